@@ -2,7 +2,7 @@
    Only statements here; every proof is `exact <lemma of Proofs/GMMLik.v>`. *)
 From Coq Require Import Reals List.
 From Coquelicot Require Import Coquelicot.
-From BLE Require Import Num.InstR Model.GMM Proofs.RLemmas Proofs.GMMLik Proofs.GaussInt.
+From BLE Require Import Num.InstR Model.GMM Proofs.RLemmas Proofs.GMMLik Proofs.GaussInt Proofs.GaussIntFull.
 Import ListNotations MR.
 Open Scope R_scope.
 
@@ -62,6 +62,18 @@ Theorem C01_gaussian_factor_integrates_to_one_partial (mu v : R) : 0 < v -> std_
   is_RInt_gen (fun x => gauss1 x mu v) (Rbar_locally m_infty) (Rbar_locally p_infty) 1.
 Proof. exact (gauss1_integral_partial mu v). Qed.
 Print Assumptions C01_gaussian_factor_integrates_to_one_partial.
+
+(* ... and that textbook integral is proved (Proofs/GaussIntAux.v: F(x) = (int_0^x e^{-t^2})^2 + int_0^1 e^{-x^2(1+t^2)}/(1+t^2) dt is constant, = pi/4),
+   so the normalised one-dimensional Gaussian factor integrates to one over the whole line without any hypothesis *)
+Theorem C01_standard_gaussian_integral :
+  is_RInt_gen (fun t => exp (- (t * t) / 2)) (Rbar_locally m_infty) (Rbar_locally p_infty) (sqrt (2 * PI)).
+Proof. exact std_gauss_integral_holds. Qed.
+Print Assumptions C01_standard_gaussian_integral.
+
+Theorem C01_gaussian_factor_integrates_to_one (mu v : R) : 0 < v ->
+  is_RInt_gen (fun x => gauss1 x mu v) (Rbar_locally m_infty) (Rbar_locally p_infty) 1.
+Proof. exact (gauss1_integral mu v). Qed.
+Print Assumptions C01_gaussian_factor_integrates_to_one.
 
 Example C01_nonvacuous : wf_gmm 2 {| ws := [/4; 3/4]; mus := [[0; 0]; [4; 4]]; vars := [[1; 1]; [2; /2]] |}.
 Proof. exact wf_example. Qed.
